@@ -407,7 +407,7 @@ func (rc *ruleCtx) context() {
 			return
 		}
 		nW++
-		if as, ok := at.(*ast.AssignStmt); ok && as.Tok == token.DEFINE && len(as.Rhs) == 1 && x.Par[x.Par[as]] == ast.Node(x.In.Wrapper) {
+		if as, ok := at.(*ast.AssignStmt); ok && as.Tok == token.DEFINE && len(as.Rhs) == 1 && x.Par[x.Par[as]] == ast.Node(x.W) {
 			if o := astx.IdentObj(info, as.Rhs[0]); o != nil {
 				if name, ok := x.Hoisted[o]; ok {
 					if role, ok := x.In.Roles[name]; !ok || role.Kind == "ctx" {
